@@ -339,6 +339,20 @@ theorem readLex_frame {v : Variant} {x : Ext} {b b' : Builder} {recs : List (Nat
   · simp at h
   · simp at h
 
+/-- a `read_lexicon` — failed or not — touches the reader and the `resolved` flag only -/
+theorem readLexB_frame (v : Variant) (x : Ext) (b : Builder) (recs : List (Nat × List Str)) (ce : Option Nat) :
+    (readLexB v x b recs ce).1.conn = b.conn ∧ (readLexB v x b recs ce).1.maxLeft = b.maxLeft ∧
+    (readLexB v x b recs ce).1.maxRight = b.maxRight ∧ (readLexB v x b recs ce).1.base = b.base ∧
+    (readLexB v x b recs ce).1.connLine = b.connLine ∧
+    (readLexB v x b recs ce).1.resolved = (if v.rf then false else b.resolved) := by
+  unfold readLexB
+  cases hr : readLexiconP v x b.lex recs with
+  | mk st r =>
+    cases r with
+    | ok u => cases u; cases ce <;> simp
+    | err k l => simp
+    | panic w => simp
+
 /-! ### `read_conn` -/
 
 theorem syncSizes_frame (v : Variant) (b : Builder) :
@@ -448,6 +462,17 @@ theorem runOp_lex {v : Variant} {x : Ext} {s s' : Builder × Nat} {recs : List (
     simp only [hc, Res.toExcept, Except.ok.injEq] at h
     exact ⟨b, rfl, h.symm⟩
 
+theorem runOp_lexIgn {v : Variant} {x : Ext} {s s' : Builder × Nat} {recs : List (Nat × List Str)} {ce : Option Nat}
+    (h : runOp v x s (.lexIgn recs ce) = .ok s') :
+    (∀ w, (readLexB v x s.1 recs ce).2 ≠ .panic w) ∧ s' = ((readLexB v x s.1 recs ce).1, s.2) := by
+  simp only [runOp] at h
+  cases hc : readLexB v x s.1 recs ce with
+  | mk b r =>
+    cases r with
+    | ok u => simp only [hc, Except.ok.injEq] at h; exact ⟨fun w => by simp, h.symm⟩
+    | err k l => simp only [hc, Except.ok.injEq] at h; exact ⟨fun w => by simp, h.symm⟩
+    | panic w => simp [hc] at h
+
 theorem runOp_resolve {v : Variant} {x : Ext} {s s' : Builder × Nat}
     (h : runOp v x s .resolve = .ok s') :
     ∃ b n, resolve s.1 = .ok (b, n) ∧ s' = (b, s.2 + n) := by
@@ -498,6 +523,7 @@ theorem runOp_base {v : Variant} {x : Ext} {s s' : Builder × Nat} {op : Op} (h 
   | conn lines => obtain ⟨_, rfl⟩ := runOp_conn h; exact (readConnB_frame ..).1
   | connIgn lines => obtain ⟨_, rfl⟩ := runOp_connIgn h; exact (readConnB_frame ..).1
   | lex recs ce => obtain ⟨b, hb, rfl⟩ := runOp_lex h; exact (readLex_frame hb).2.2.2.1
+  | lexIgn recs ce => obtain ⟨_, rfl⟩ := runOp_lexIgn h; exact (readLexB_frame ..).2.2.2.1
   | resolve => obtain ⟨b, n, hb, rfl⟩ := runOp_resolve h; exact (resolve_frame hb).2.2.2.1
 
 theorem runOp_sized {v : Variant} {x : Ext} {s s' : Builder × Nat} {op : Op} (h : runOp v x s op = .ok s')
@@ -513,6 +539,12 @@ theorem runOp_sized {v : Variant} {x : Ext} {s s' : Builder × Nat} {op : Op} (h
   | lex recs ce =>
     obtain ⟨b, hb, rfl⟩ := runOp_lex h
     obtain ⟨f1, f2, f3, _⟩ := readLex_frame hb
+    rcases hs with hs | hs
+    · cases hs
+    · unfold Sized at hs ⊢; simp only [f1, f2, f3]; exact hs
+  | lexIgn recs ce =>
+    obtain ⟨_, rfl⟩ := runOp_lexIgn h
+    obtain ⟨f1, f2, f3, _⟩ := readLexB_frame v x s.1 recs ce
     rcases hs with hs | hs
     · cases hs
     · unfold Sized at hs ⊢; simp only [f1, f2, f3]; exact hs
@@ -543,6 +575,10 @@ theorem runOp_keeps {v : Variant} {x : Ext} {s s' : Builder × Nat} {op : Op} (h
     obtain ⟨b, hb, rfl⟩ := runOp_lex h
     obtain ⟨_, f2, f3, _⟩ := readLex_frame hb
     exact ⟨f2, f3⟩
+  | lexIgn recs ce =>
+    obtain ⟨_, rfl⟩ := runOp_lexIgn h
+    obtain ⟨_, f2, f3, _⟩ := readLexB_frame v x s.1 recs ce
+    exact ⟨f2, f3⟩
   | resolve =>
     obtain ⟨b, n, hb, rfl⟩ := runOp_resolve h
     obtain ⟨_, f2, f3, _⟩ := resolve_frame hb
@@ -558,6 +594,10 @@ theorem runOp_buf {v : Variant} {x : Ext} {s s' : Builder × Nat} {op : Op} (h :
   | lex recs ce =>
     obtain ⟨b, hb, rfl⟩ := runOp_lex h
     obtain ⟨f1, _, _, _, f5⟩ := readLex_frame hb
+    exact ⟨f1, f5⟩
+  | lexIgn recs ce =>
+    obtain ⟨_, rfl⟩ := runOp_lexIgn h
+    obtain ⟨f1, _, _, _, f5, _⟩ := readLexB_frame v x s.1 recs ce
     exact ⟨f1, f5⟩
   | resolve =>
     obtain ⟨b, n, hb, rfl⟩ := runOp_resolve h
@@ -639,6 +679,7 @@ theorem noConn_of_not_mem {ops : List Op}
   | conn lines => exact absurd hm (hn lines).1
   | connIgn lines => exact absurd hm (hn lines).2
   | lex recs ce => exact ⟨rfl, rfl⟩
+  | lexIgn recs ce => exact ⟨rfl, rfl⟩
   | resolve => exact ⟨rfl, rfl⟩
 
 theorem noIgn_of_not_mem {ops : List Op} (hn : ∀ lines, Op.connIgn lines ∉ ops) :
@@ -648,6 +689,7 @@ theorem noIgn_of_not_mem {ops : List Op} (hn : ∀ lines, Op.connIgn lines ∉ o
   | connIgn lines => exact absurd hm (hn lines)
   | conn lines => rfl
   | lex recs ce => rfl
+  | lexIgn recs ce => rfl
   | resolve => rfl
 
 /-- the builder `prepare` hands to `compile`: the sizes the ids are validated against.
